@@ -36,6 +36,16 @@ SpecBodies ==
     \cup {Enc(CMap(<< <<CU(1), CU(1)>>, <<CU(2), CU(sc)>> >>)) : sc \in 1..7}                        \* bioEnrollment: modality, sub-command
     \cup {Enc(CMap(<< <<CU(6), CBool(TRUE)>> >>))}                                                   \* bioEnrollment: getModality
     \cup {ValidPayload(c) : c \in {1, 2, 6, 10, 12}}
+\* whatever follows a command that takes no parameters is ignored, however deeply it nests
+RECURSIVE Nest(_, _)
+Nest(d, inner) == IF d = 0 THEN inner ELSE IF d % 2 = 0 THEN CArr(<<Nest(d - 1, inner)>>) ELSE CMap(<< <<CU(1), Nest(d - 1, inner)>> >>)
+DeepBodies == {Enc(Nest(d, CU(0))) : d \in {1, 7, 8, 9, 10, 16, 32, 64}} \cup {Rep(129, d) \o <<0>> : d \in {8, 9, 10, 33}}
+              \cup {Enc(CTag(BN(1), Nest(9, CNull)))}
+DeepBodyCases ==
+    {[op |-> "decode2", tag |-> "command-deep-body", c |-> c, sv |-> << >>, wire |-> <<c>> \o b]
+     @@ (IF CommandTable[c].kind \in {"unassigned", "unsupported"} THEN [fault |-> "command"] ELSE << >>)
+        : c \in {0, 4, 7, 8, 9, 11, 13, 64, 66, 127, 128, 255}, b \in DeepBodies}
+
 SpecBodyCases ==
     {[op |-> "decode2", tag |-> "command-spec-body", c |-> c, sv |-> << >>, wire |-> <<c>> \o b, fault |-> "command"] :
         c \in {0, 3, 5, 9, 13, 14, 64, 128, 255}, b \in SpecBodies}
@@ -57,7 +67,7 @@ PrototypeCases ==
 
 TableCases == {[op |-> "optable", tag |-> "optable", c |-> c] : c \in 0..255}
 
-MC_Cases == CommandCases \cup TableCases \cup PrototypeCases \cup LongPayloadCases \cup SpecBodyCases
+MC_Cases == CommandCases \cup TableCases \cup PrototypeCases \cup LongPayloadCases \cup SpecBodyCases \cup DeepBodyCases
 
 (***************************************************************************)
 (* C11 on the model                                                        *)
